@@ -125,7 +125,17 @@ struct Plan {
     requests: usize,
     migrations: usize,
     remove_node: bool,
+    /// A spare node joins the ring before this request index (the client learns of it
+    /// only through its next metadata refresh): tablets may then name a replica the
+    /// client does not know yet.
+    spare_join_at: Option<usize>,
+    spare_event: bool,
+    /// Oracle id prefix: "c15" or, when run as the tablet part of C12, "c12t".
+    prefix: &'static str,
 }
+
+/// Whether the spare node (index plan.nodes) is a ring member by now.
+static SPARE_JOINED: std::sync::atomic::AtomicBool = std::sync::atomic::AtomicBool::new(false);
 
 fn draw_layout(plan: &Plan) -> Vec<Tab> {
     let mut bounds: Vec<i64> = (0..plan.tablets - 1)
@@ -152,6 +162,9 @@ fn draw_layout(plan: &Plan) -> Vec<Tab> {
 
 fn draw_replicas(plan: &Plan) -> Vec<(usize, u32)> {
     let mut nodes: Vec<usize> = (0..plan.nodes).collect();
+    if SPARE_JOINED.load(std::sync::atomic::Ordering::Relaxed) {
+        nodes.push(plan.nodes);
+    }
     let mut r = Vec::new();
     for _ in 0..plan.rf.min(plan.nodes) {
         let i = tape::choose("c15:replica_node", nodes.len() as u64) as usize;
@@ -162,6 +175,7 @@ fn draw_replicas(plan: &Plan) -> Vec<(usize, u32)> {
 }
 
 pub fn run(req: &RunRequest) -> Value {
+    let req_is_c12t = req.property == "C12t";
     run_sim(req, move || {
         let plan = Plan {
             nodes: tape::range("c15:nodes", 2, 5) as usize,
@@ -171,11 +185,24 @@ pub fn run(req: &RunRequest) -> Value {
             requests: tape::range("c15:requests", 10, 80) as usize,
             migrations: tape::choose("c15:migrations", 6) as usize,
             remove_node: tape::chance("c15:remove_node", 1, 3),
+            spare_join_at: None,
+            spare_event: tape::chance("c15:spare_event", 1, 2),
+            prefix: if req_is_c12t { "c12t" } else { "c15" },
         };
+        let mut plan = plan;
+        if tape::chance("c15:spare", 1, 3) {
+            plan.spare_join_at = Some(tape::choose("c15:spare_at", plan.requests as u64) as usize);
+        }
         let mut cluster = Cluster::new("c15");
         for i in 0..plan.nodes {
             let n = cluster.add_node("dc1", "r1", plan.shards, vec![(i as i64) * 1000 - 2500]);
             cluster.nodes[n].msb_ignore = 12;
+        }
+        if plan.spare_join_at.is_some() {
+            let n = cluster.add_node("dc1", "r1", plan.shards, vec![(plan.nodes as i64) * 1000 - 2500]);
+            cluster.nodes[n].msb_ignore = 12;
+            cluster.nodes[n].in_ring = false;
+            cluster.nodes[n].up = false;
         }
         client::standard_catalog(&mut cluster, Strategy::Simple(1), false);
         cluster.keyspaces.push(KeyspaceDef {
@@ -214,6 +241,8 @@ pub fn run(req: &RunRequest) -> Value {
 
 async fn main(plan: Plan) -> Outcome {
     let mut out = Outcome::default();
+    SPARE_JOINED.store(false, std::sync::atomic::Ordering::Relaxed);
+    let oid = |name: &str| format!("{}.{name}", plan.prefix);
     let layout = draw_layout(&plan);
     {
         let mut w = world::world();
@@ -256,7 +285,20 @@ async fn main(plan: Plan) -> Outcome {
         .collect();
     migrate_at.sort();
     let mut routed_checked = 0u64;
+    let mut spare_known_to_client = false;
     for i in 0..plan.requests {
+        if plan.spare_join_at == Some(i) {
+            let mut w = world::world();
+            let n = plan.nodes;
+            w.cluster.nodes[n].in_ring = true;
+            w.cluster.nodes[n].up = true;
+            SPARE_JOINED.store(true, std::sync::atomic::Ordering::Relaxed);
+            if plan.spare_event {
+                let ip = w.cluster.nodes[n].ip;
+                w.broadcast_event("TOPOLOGY_CHANGE", crate::wire::body_event_topology("NEW_NODE", ip, 9042));
+            }
+            w.fault(Fault::Topology);
+        }
         while migrate_at.first() == Some(&i) {
             migrate_at.remove(0);
             // The server-side layout changes: split, merge or move a tablet.
@@ -264,7 +306,7 @@ async fn main(plan: Plan) -> Outcome {
             let mut s = w.script.take().unwrap();
             let sc = s.as_any().downcast_mut::<C15Script>().unwrap();
             let k = tape::choose("c15:mig_tablet", sc.layout.len() as u64) as usize;
-            match tape::choose("c15:mig_kind", 3) {
+            match tape::choose("c15:mig_kind", 5) {
                 0 => {
                     sc.layout[k].replicas = draw_replicas(&plan);
                 }
@@ -273,6 +315,28 @@ async fn main(plan: Plan) -> Outcome {
                     let mid = t.first_excl / 2 + t.last / 2;
                     sc.layout[k].last = mid;
                     sc.layout.insert(k + 1, Tab { first_excl: mid, last: t.last, replicas: draw_replicas(&plan) });
+                }
+                3 | 4 if sc.layout.len() > 1 => {
+                    // The boundary between two tablets moves by ONE token: the tablet that
+                    // grows overlaps what the client may know of its neighbour in exactly
+                    // one token.
+                    let k = k.min(sc.layout.len() - 2);
+                    let down = tape::choose("c15:shift_dir", 2) == 0;
+                    let (lo, hi) = (sc.layout[k].first_excl, sc.layout[k + 1].last);
+                    let b = sc.layout[k].last;
+                    if down && b - 1 > lo {
+                        sc.layout[k].last = b - 1;
+                        sc.layout[k + 1].first_excl = b - 1;
+                        sc.layout[k + 1].replicas = draw_replicas(&plan);
+                    } else if !down && b + 1 < hi {
+                        sc.layout[k].last = b + 1;
+                        sc.layout[k + 1].first_excl = b + 1;
+                        sc.layout[k].replicas = draw_replicas(&plan);
+                    }
+                    if tape::chance("c15:shift_both", 1, 2) {
+                        let j = if down { k } else { k + 1 };
+                        sc.layout[j].replicas = draw_replicas(&plan);
+                    }
                 }
                 _ if sc.layout.len() > 1 => {
                     let k = k.min(sc.layout.len() - 2);
@@ -290,7 +354,7 @@ async fn main(plan: Plan) -> Outcome {
         let res = session.execute_unpaged(&p, (key, m as i64)).await;
         if let Ok(qr) = res {
             if let Err(e) = client::check_marker_rows(qr, m) {
-                out.violation("c15.attribution", e);
+                out.violation(&oid("attribution"), e);
             }
         }
         // Tablet feedback is applied by the cluster worker asynchronously.
@@ -302,8 +366,12 @@ async fn main(plan: Plan) -> Outcome {
             let f = s.as_any().downcast_mut::<C15Script>().unwrap().first.get(&m).cloned();
             w.script = Some(s);
             let mut cov = vec![Vec::new(); w.cluster.nodes.len()];
+            // "the pool has a connection to that shard": a connection the mock has seen
+            // ready for at least 300 virtual ms (a connection still being set up by the
+            // pool refiller - spare node just discovered - does not count yet).
+            let now = w.now();
             for c in &w.conns {
-                if !c.srv_closed && !c.client_closed && c.cql.registered.is_empty() && c.cql.started {
+                if !c.srv_closed && !c.client_closed && c.cql.registered.is_empty() && c.cql.started && c.opened_at + 320 * MS <= now {
                     if let Some(sh) = c.shard {
                         cov[c.node].push(sh);
                     }
@@ -311,18 +379,27 @@ async fn main(plan: Plan) -> Outcome {
             }
             (f, cov)
         };
+        if !spare_known_to_client && SPARE_JOINED.load(std::sync::atomic::Ordering::Relaxed) {
+            let hid = uuid::Uuid::from_bytes(world::world().cluster.nodes[plan.nodes].host_id);
+            spare_known_to_client = session.get_cluster_state().get_nodes_info().iter().any(|n| n.host_id == hid);
+        }
+        // A learnt tablet naming a replica the client does not know yet is routed by the
+        // replicas it does know (possibly none): judged only when all replicas are known.
+        let first = first.filter(|(_, _, _, k)| {
+            spare_known_to_client || !k.as_ref().map(|t| t.replicas.iter().any(|(n, _)| *n == plan.nodes)).unwrap_or(false)
+        });
         if let Some((node, shard, token, Some(known))) = first {
             routed_checked += 1;
             let hit = known.replicas.iter().find(|(n, _)| *n == node);
             match hit {
                 None => out.violation(
-                    "c15.routing_ignores_tablet",
+                    &oid("routing_ignores_tablet"),
                     format!("request {m} (token {token}) went to node {node} although the client had learnt tablet ({}, {}] with replicas {:?}", known.first_excl, known.last, known.replicas),
                 ),
                 Some((_, want)) => {
                     if covered[node].contains(want) && shard != Some(*want) {
                         out.violation(
-                            "c15.routing_wrong_shard",
+                            &oid("routing_wrong_shard"),
                             format!("request {m} (token {token}) reached node {node} on shard {shard:?}; the learnt tablet says shard {want}"),
                         );
                     }
@@ -344,6 +421,12 @@ async fn main(plan: Plan) -> Outcome {
         removed = Some(victim);
         world::sleep_ns(15 * SEC).await;
         let _ = tokio::time::timeout(Duration::from_secs(120), session.refresh_metadata()).await;
+    }
+    if plan.spare_join_at.is_some() {
+        // The topology refresh resolves (or drops) tablets learnt with an unknown replica.
+        world::sleep_ns(2 * SEC).await;
+        let _ = tokio::time::timeout(Duration::from_secs(120), session.refresh_metadata()).await;
+        out.count("spare_node_runs", 1);
     }
     world::sleep_ns(2 * SEC).await;
 
@@ -387,7 +470,7 @@ async fn main(plan: Plan) -> Outcome {
         lookups += 1;
         if got != want {
             out.violation(
-                "c15.lookup_after_quiescence",
+                &oid("lookup_after_quiescence"),
                 format!(
                     "token {token}: ClusterState answers {:?}, the tablets learnt (latest wins, node {:?} removed) say {:?}",
                     got.iter().map(|(h, s)| (h[4], *s)).collect::<Vec<_>>(),
@@ -404,7 +487,7 @@ async fn main(plan: Plan) -> Outcome {
     out.count("lookups_checked", lookups);
     out.sample = json!({
         "nodes": plan.nodes, "shards": plan.shards, "tablets": plan.tablets, "rf": plan.rf, "requests": plan.requests,
-        "migrations": plan.migrations, "removed": removed, "payloads": payloads, "known_tablets": known.len(),
+        "migrations": plan.migrations, "spare_join_at": plan.spare_join_at, "removed": removed, "payloads": payloads, "known_tablets": known.len(),
     });
     out
 }
